@@ -45,7 +45,9 @@ def run_case(case, backend="main"):
         if k == 0:
             return ExceptionSignal
         if k not in classes:
-            classes[k] = type("Sig%d" % k, (AbstractSignal,), {})
+            # even-numbered classes derive from the class below them: delivery and waiting go by the EXACT class
+            base = cls_of(k - 1) if (k % 2 == 0 and k >= 2) else AbstractSignal
+            classes[k] = type("Sig%d" % k, (base,), {})
         return classes[k]
 
     srcs = {}
@@ -54,7 +56,9 @@ def run_case(case, backend="main"):
         if o is None:
             return None
         if o not in srcs:
-            srcs[o] = type("Src%d" % o, (), {})()
+            # every other source object is "falsy" (an empty container-like object): routing must go by identity
+            body = {"__len__": (lambda self: 0)} if o % 2 == 0 else {}
+            srcs[o] = type("Src%d" % o, (), body)()
         return srcs[o]
 
     def new_signal(k, prio, src):
